@@ -27,7 +27,7 @@ COMPILER_REPLAYS = {
     "u_liftty": ["replay/c08/nested_tuple.sh", "replay/c08/closure_callee.sh"],
     "u_tastlit": ["replay/c10/run.sh"],
     "u_block": ["replay/c17/method_value.sh"],
-    "u_inherent": ["replay/c17/dup_inherent.sh"],
+    "u_inherent": ["replay/c17/dup_inherent.sh", "replay/c17/overlap_inherent.sh"],
     "u_calllower": ["replay/c11/paren_call.sh", "replay/c11/neg_nullary.sh", "replay/c11/tuple_nested.sh"],
     "u_ceffect": ["replay/c04/go_fn_value.sh"],
     "u_patlit": ["replay/c03/run.sh"],
